@@ -37,6 +37,13 @@ CLAIMS = {
  'C13': ("Unbounded theorems: every validation model (HOTP, TOTP, OCRA) returns (true,nil) or (false,error) for all inputs; the error of a validation step does not depend on the HMAC function (hence not on the expected code); "
          "errors produced after the HMAC are the two sentinels, whose texts (regenerated from errs.go) contain no decimal digit.",
          "The secret-disclosure clause is tied by the correspondence's scan of real error strings for the secret (text and raw) and every in-window code; it is a test, not a theorem.", "6 C13"),
+ 'C15': ("Finite theorems on the registry regenerated from suite_rfc6287.go (all 45 names read under the RFC 6287 naming scheme, print back to themselves and denote exactly their entry; names distinct; list / known-test / lookup agree; every name instantiates) "
+         "and unbounded theorems on the parser model over every name of the scheme (any numerals): if it accepts, the configuration is exactly the name's denotation; it accepts every representable name; "
+         "digits outside 4..10, alphanumeric/hex questions outside the registry, a part count other than three and a version other than OCRA-1 are rejected; an accepted string is reported verbatim.",
+         "Spec/SuiteName.v is the reading of the naming scheme (it admits the bare 'T<n>' the registry advertises, documented by the library as seconds). strings.ToUpper is exact in the model for ASCII and the two runes that upper-case to ASCII; other non-ASCII suite strings are outside the model's domain (counted as drift, never a violation).", "6 C15"),
+ 'C16': ("Unbounded theorems: for every issuer (non-empty, no colon), account, secret (non-empty, arbitrary bytes), supported hash, code length 0..255 and period < 2^63 the generated URL has scheme otpauth and type totp/hotp, and url.Parse of its textual form followed by ParseOTPAuthURL returns the same issuer, account, secret, hash, code length (0 as 6) and period (0 as 30); "
+         "rests on unescape(escape s) = s and delimiter-freedom of escaped text (256-case byte sweeps lifted by induction) and on ParseQuery(Values.Encode l) = l; parsing any URL returns exactly the integers Atoi reads, within 0..255 / >= 0, or fails.",
+         "net/url (shouldEscape, escape, unescape, validEncoded, EscapedPath, String, Parse incl. getScheme/parseAuthority/parseHost/setPath, ParseQuery, Values.Encode) is transcribed from go1.24.0 and compared on every run on delimiter-rich strings; IPv6/zone hosts are outside the model (answered out-of-model, counted as drift).", "6 C16"),
  'C17': ("Unbounded theorems per helper: To8ByteBigEndian = 8-byte big-endian (value recovered), decimal parsing = that encoding of the value with rejection of empty/non-digit/overflow, LeftPadHex length and content, hex timestamps 8 bytes, "
          "hex request fields field-wise with first-error, decimal question = RFC 6287 conversion, and end to end the OCRA code from a numeric question equals the RFC value.",
          "strconv, encoding/hex and math/big are transcribed as the functions the helpers use and compared on every run.", "6 C17"),
